@@ -1314,9 +1314,27 @@ func (in *Interp) jsonUnmarshalInto(u *unmarshalState, n *JNode, t types.Type, p
 		case JNull:
 			in.store(p, Slice{})
 		case JArray:
+			// "Unmarshal resets the slice length to zero and then appends each element": while
+			// the target's capacity lasts, the elements are decoded into its own backing array
+			// (into the values already there: members a JSON object does not mention keep
+			// what they held); beyond it a new array is allocated. An empty array gives a new
+			// empty slice.
+			cur, _ := in.load(p).(Slice)
+			if len(n.Elems) > 0 && cur.JSON == nil && len(cur.Back) >= len(n.Elems) {
+				for i, e := range n.Elems {
+					in.checkWrite(&cur.Back[i])
+					in.jsonUnmarshalInto(u, e, tt.Elem(), &cur.Back[i])
+				}
+				in.store(p, Slice{Back: cur.Back, Len: len(n.Elems)})
+				return
+			}
 			back := make([]Value, len(n.Elems))
 			for i := range back {
-				back[i] = in.zero(tt.Elem())
+				if cur.JSON == nil && i < len(cur.Back) {
+					back[i] = copyVal(cur.Back[i])
+				} else {
+					back[i] = in.zero(tt.Elem())
+				}
 			}
 			for i, e := range n.Elems {
 				in.jsonUnmarshalInto(u, e, tt.Elem(), &back[i])
